@@ -87,6 +87,7 @@ type Sched struct {
 	PCTChange   float64
 
 	Log     []Event
+	Panics  []string // panics raised by managed goroutines
 	Drift   int      // script steps that could not be followed
 	Blocked int      // releases that ended in the watchdog
 	prio    map[*G]int
@@ -124,6 +125,12 @@ func (s *Sched) Go(name string, fn func()) {
 		s.arrive <- struct{}{}
 		<-g.wake
 		defer func() {
+			// a panic of the code under test is an observation (reported by Run), not a crash of the driver
+			if r := recover(); r != nil {
+				s.mu.Lock()
+				s.Panics = append(s.Panics, fmt.Sprintf("%s: %v", name, r))
+				s.mu.Unlock()
+			}
 			s.mu.Lock()
 			g.state = stDone
 			g.At = "done"
@@ -168,6 +175,25 @@ func (s *Sched) hook(id string, v uint64) {
 	s.mu.Unlock()
 	s.arrive <- struct{}{}
 	<-g.wake
+}
+
+// WaitDone waits (after Run returned, all gates open) until every named goroutine has finished.
+// A "deadlock" diagnostic of Run only means that nothing arrived for IdleTimeout - on a loaded machine
+// goroutines may merely be slow - so drivers report a hang only if WaitDone fails as well.
+func (s *Sched) WaitDone(timeout time.Duration) bool {
+	deadline := time.Now().Add(timeout)
+	for {
+		s.mu.Lock()
+		live := s.namedLive()
+		s.mu.Unlock()
+		if live == 0 {
+			return true
+		}
+		if time.Now().After(deadline) {
+			return false
+		}
+		time.Sleep(time.Millisecond)
+	}
 }
 
 // Point lets harness code (a scripted loader, a clock) park like a library hook does.
@@ -293,7 +319,14 @@ func (s *Sched) Run() string {
 				continue
 			case <-time.After(s.IdleTimeout):
 				if live == 0 {
-					return ""
+					s.mu.Lock()
+					np := len(s.Panics)
+					msg := ""
+					if np > 0 {
+						msg = "panic: " + s.Panics[0]
+					}
+					s.mu.Unlock()
+					return msg
 				}
 				s.mu.Lock()
 				desc := ""
@@ -326,6 +359,17 @@ func (s *Sched) Run() string {
 			s.mu.Unlock()
 		}
 	}
+}
+
+// Guard runs fn and returns the message of a panic it raised ("" if none).
+func Guard(fn func()) (msg string) {
+	defer func() {
+		if r := recover(); r != nil {
+			msg = fmt.Sprintf("panic: %v", r)
+		}
+	}()
+	fn()
+	return ""
 }
 
 // Yielder returns a hook that does not park but perturbs the schedule of free-running goroutines:
